@@ -55,6 +55,12 @@ func (f *Prog) Call(s *slip.Scope, args slip.List, depth int) slip.Object {
 	d2 := depth + 1
 	processBinding(s, ns, args[0], d2)
 	for i := 1; i < len(args); i++ {
+		switch args[i].(type) {
+		case slip.List, slip.Funky:
+		default:
+			// A tag marks a place in the body, it is not evaluated.
+			continue
+		}
 		switch tr := slip.EvalArg(ns, args, i, d2).(type) {
 		case *slip.ReturnResult:
 			if tr.Tag == nil {
